@@ -442,6 +442,7 @@ def run_scripts(res, prop, scripts, ncases, timeout=1500):
     pending = [(i, 0, 0) for i in range(len(scripts))]     # (script index, first case, attempt)
     traces = [[] for _ in scripts]
     rounds = 0
+    hangs = {}
     while pending and rounds < 400:
         rounds += 1
         jobs = [dict(args=["--arg", scripts[i], "--cases", ncases[i] + 1, "--first", first], tag="%s-s%d-r%d" % (prop, i, att),
@@ -465,8 +466,14 @@ def run_scripts(res, prop, scripts, ncases, timeout=1500):
             unfinished = [c.idx for c in cases.values() if not c.ended]
             last = unfinished[0] if unfinished else (max(cases) if cases else j["_first"])
             res.add_stat("harness_restarts", 1)
-            if last + 1 < ncases[i] and j["_att"] < 300:
+            hung = "hang:cpu-watchdog" in et or any(k.startswith("hang:") for k in o.get("keys", []))
+            if hung:
+                hangs[i] = hangs.get(i, 0) + 1
+            # a shard that keeps dying is already a verdict; do not burn hours on it (2 hangs or 150 deaths per shard)
+            if last + 1 < ncases[i] and j["_att"] < 150 and hangs.get(i, 0) < 2:
                 pending.append((i, last + 1, j["_att"] + 1))
+            elif last + 1 < ncases[i]:
+                res.add_stat("shards_abandoned", 1)
     return traces
 
 
